@@ -1,4 +1,6 @@
 import AlgopyVerif.Proofs.Analytic
+import AlgopyVerif.Proofs.Analytic2
+import AlgopyVerif.Proofs.Closure
 import AlgopyVerif.Proofs.Lift
 /-!
 # C01 — elementary functions return the Taylor coefficients of `f(x(t))`
@@ -12,14 +14,19 @@ input and every `d < D` (*analytic layer*):
 The *formal layer* gives, over any field of characteristic 0 (real and complex
 coefficients), the defining convolution identity of each recurrence.
 
-Status.  Analytic layer proved: exp, sin, cos, log, sqrt, reciprocal.  Formal layer
-proved: exp, log, sqrt, sin/cos, reciprocal (and mul/div in C02).  For the remaining
-functions of the property (tan, arc*, hyperbolic, powers, the black/white family, the
-Faà-di-Bruno family, dawsn, kink functions) the model exists (`Model/Series.lean`) and is
-tied to the code by the correspondence run; their all-inputs theorems are not proved yet
-(`…_partial` below refers to this).
+Status.  Analytic layer proved: exp, expm1, log, log1p, sqrt, reciprocal, real / negative-integer /
+natural powers, sin, cos, tan, sinh, cosh, tanh, arctan, arcsin, arccos, logit, expit, erf and erfi
+(for any antiderivative of `c·exp(∓y²)` — Mathlib has no `erf`), absolute, sign, minimum, maximum
+away from their kinks (each with the base values the code uses: `1/cos²x₀`, `1-tanh²x₀`,
+`1+x₀²`, `cos(arcsin x₀)`, `-sin(arccos x₀)`, …).  The kernels are closed under composition
+(`JetOf`, `jet_*` below): a kernel applied to the jet of *any* smooth germ returns the jet of the
+composite, by the jet lemma `tc_comp_congr`.  Formal layer
+proved: exp, log, sqrt, sin/cos, reciprocal (and mul/div in C02).  Not proved (model + correspondence
+only): the Faà-di-Bruno family through `_eval_slow_generic` (gammaln, psi, polygamma, hyperu),
+`dawsn` (generic ODE solver), `botched_clip`.
 -/
 open AV
+open scoped ContDiff
 
 namespace AV.C01
 
@@ -50,6 +57,136 @@ theorem sqrt_taylor (x : List ℝ) (hx : 0 < co x 0) (d : ℕ) (hd : d < x.lengt
 theorem reciprocal_taylor (x : List ℝ) (hx : co x 0 ≠ 0) (d : ℕ) (hd : d < x.length) :
     co (recipS x) d = tc (fun t => (curve x t)⁻¹) d :=
   AV.recip_taylor x hx d hd
+
+theorem sinh_taylor (x : List ℝ) (d : ℕ) (hd : d < x.length) :
+    co (sinhcoshS (Real.sinh (co x 0)) (Real.cosh (co x 0)) x).1 d = tc (fun t => Real.sinh (curve x t)) d :=
+  (AV.sinhcosh_taylor x d hd).1
+
+theorem cosh_taylor (x : List ℝ) (d : ℕ) (hd : d < x.length) :
+    co (sinhcoshS (Real.sinh (co x 0)) (Real.cosh (co x 0)) x).2 d = tc (fun t => Real.cosh (curve x t)) d :=
+  (AV.sinhcosh_taylor x d hd).2
+
+/-- domain of smoothness of `tan`: `cos x₀ ≠ 0`; the second output is `sec² = 1 + tan²` -/
+theorem tan_taylor (x : List ℝ) (hx : Real.cos (co x 0) ≠ 0) (d : ℕ) (hd : d < x.length) :
+    co (tansec2S (Real.tan (co x 0)) (1 / (Real.cos (co x 0) * Real.cos (co x 0))) x).1 d
+      = tc (fun t => Real.tan (curve x t)) d :=
+  (AV.tansec2_taylor x hx d hd).1
+
+theorem tanh_taylor (x : List ℝ) (d : ℕ) (hd : d < x.length) :
+    co (tanhsech2S (Real.tanh (co x 0)) (1 - Real.tanh (co x 0) * Real.tanh (co x 0)) x).1 d
+      = tc (fun t => Real.tanh (curve x t)) d :=
+  (AV.tanhsech2_taylor x d hd).1
+
+theorem arctan_taylor (x : List ℝ) (d : ℕ) (hd : d < x.length) :
+    co (arctanS (Real.arctan (co x 0)) x).1 d = tc (fun t => Real.arctan (curve x t)) d :=
+  (AV.arctan_taylor x d hd).1
+
+/-- domain of smoothness of `arcsin`/`arccos`: `-1 < x₀ < 1` -/
+theorem arcsin_taylor (x : List ℝ) (h1 : -1 < co x 0) (h2 : co x 0 < 1) (d : ℕ) (hd : d < x.length) :
+    co (arcsinS (Real.arcsin (co x 0)) (Real.cos (Real.arcsin (co x 0))) x).1 d
+      = tc (fun t => Real.arcsin (curve x t)) d :=
+  (AV.arcsin_taylor x h1 h2 d hd).1
+
+theorem arccos_taylor (x : List ℝ) (h1 : -1 < co x 0) (h2 : co x 0 < 1) (d : ℕ) (hd : d < x.length) :
+    co (arcsinS (Real.arccos (co x 0)) (-Real.sin (Real.arccos (co x 0))) x).1 d
+      = tc (fun t => Real.arccos (curve x t)) d :=
+  (AV.arccos_taylor x h1 h2 d hd).1
+
+/-! ### the black/white family and powers (via closure under composition) -/
+
+theorem expm1_taylor (x : List ℝ) (d : ℕ) (hd : d < x.length) :
+    co (expm1S (Real.exp (co x 0)) (Real.exp (co x 0) - 1) x) d = tc (fun t => Real.exp (curve x t) - 1) d := by
+  have := (expm1_jet (jetOf_curve x)).coeff d (by simpa [expm1S, blackWhiteS] using hd)
+  simpa only [curve_zero] using this
+
+/-- domain of smoothness of `log1p`: `1 + x₀ ≠ 0` (NumPy's real `log1p` needs `x₀ > -1`) -/
+theorem log1p_taylor (x : List ℝ) (hx : co x 0 + 1 ≠ 0) (d : ℕ) (hd : d < x.length) :
+    co (log1pS (Real.log (co x 0 + 1)) x) d = tc (fun t => Real.log (curve x t + 1)) d := by
+  have := (log1p_jet (jetOf_curve x) (by simpa only [curve_zero] using hx)).coeff d
+    (by simpa [log1pS, blackWhiteS] using hd)
+  simpa only [curve_zero] using this
+
+/-- `logit x = log x - log (1 - x)`, `x₀ ∉ {0, 1}` -/
+theorem logit_taylor (x : List ℝ) (h0 : co x 0 ≠ 0) (h1 : 1 - co x 0 ≠ 0) (d : ℕ) (hd : d < x.length) :
+    co (logitS (Real.log (co x 0) - Real.log (1 - co x 0)) x) d
+      = tc (fun t => Real.log (curve x t) - Real.log (1 - curve x t)) d := by
+  have := (logit_jet (jetOf_curve x) (by simpa only [curve_zero] using h0)
+    (by simpa only [curve_zero] using h1)).coeff d (by simpa [logitS, blackWhiteS] using hd)
+  simpa only [curve_zero] using this
+
+theorem expit_taylor (x : List ℝ) (d : ℕ) (hd : d < x.length) :
+    co (expitS (Real.exp (co x 0)) ((1 + Real.exp (-(co x 0)))⁻¹) x) d
+      = tc (fun t => (1 + Real.exp (-(curve x t)))⁻¹) d := by
+  have := (expit_jet (jetOf_curve x)).coeff d (by simpa [expitS, blackWhiteS] using hd)
+  simpa only [curve_zero] using this
+
+/-- `erf`: for every smooth `E` with `E'(y) = c · exp(-y²)` (so `E = erf` up to the leaf `E(x₀)`, `c = 2/√π`) -/
+theorem erf_taylor (x : List ℝ) (c : ℝ) (E : ℝ → ℝ) (hE : ∀ y, HasDerivAt E (c * Real.exp (-(y * y))) y)
+    (hEs : ContDiffAt ℝ ∞ E (co x 0)) (d : ℕ) (hd : d < x.length) :
+    co (erfS c (Real.exp (-(co x 0 * co x 0))) (E (co x 0)) x) d = tc (fun t => E (curve x t)) d := by
+  have := (erf_jet (jetOf_curve x) c E hE (by simpa only [curve_zero] using hEs)).coeff d
+    (by simpa [erfS, blackWhiteS] using hd)
+  simpa only [curve_zero] using this
+
+theorem erfi_taylor (x : List ℝ) (c : ℝ) (E : ℝ → ℝ) (hE : ∀ y, HasDerivAt E (c * Real.exp (y * y)) y)
+    (hEs : ContDiffAt ℝ ∞ E (co x 0)) (d : ℕ) (hd : d < x.length) :
+    co (erfiS c (Real.exp (co x 0 * co x 0)) (E (co x 0)) x) d = tc (fun t => E (curve x t)) d := by
+  have := (erfi_jet (jetOf_curve x) c E hE (by simpa only [curve_zero] using hEs)).coeff d
+    (by simpa [erfiS, blackWhiteS] using hd)
+  simpa only [curve_zero] using this
+
+/-- `x ** r`, real exponent, `x₀ > 0` -/
+theorem rpow_taylor (x : List ℝ) (r : ℝ) (hx : 0 < co x 0) (d : ℕ) (hd : d < x.length) :
+    co (powRealS r ((co x 0) ^ r) x) d = tc (fun t => (curve x t) ^ r) d := by
+  have := (rpow_jet (jetOf_curve x) r (by simpa only [curve_zero] using hx)).coeff d
+    (by simpa [powRealS_length] using hd)
+  simpa only [curve_zero] using this
+
+/-- `x ** n`, integer exponent through the general branch (the code uses it for `n < 0`), `x₀ ≠ 0` -/
+theorem zpow_taylor (x : List ℝ) (n : ℤ) (hx : co x 0 ≠ 0) (d : ℕ) (hd : d < x.length) :
+    co (powRealS (n : ℝ) ((co x 0) ^ n) x) d = tc (fun t => (curve x t) ^ n) d := by
+  have := (zpow_jet (jetOf_curve x) n (by simpa only [curve_zero] using hx)).coeff d
+    (by simpa [powRealS_length] using hd)
+  simpa only [curve_zero] using this
+
+/-- `x ** r` for a Python int `r ≥ 0` (all base points, including `x₀ = 0`) -/
+theorem pownat_taylor (x : List ℝ) (r : ℕ) (d : ℕ) (hd : d < (powNatS r x).length) :
+    co (powNatS r x) d = tc (fun t => (curve x t) ^ r) d :=
+  (pownat_jet (jetOf_curve x) r).coeff d hd
+
+/-! ### kink functions away from the kink -/
+theorem absolute_taylor (x : List ℝ) (hx : co x 0 ≠ 0) (d : ℕ) (hd : d < x.length) :
+    co (absoluteS (SignType.sign (co x 0) : ℝ) |co x 0| x) d = tc (fun t => |curve x t|) d := by
+  have := (abs_jet (jetOf_curve x) (by simpa only [curve_zero] using hx)).coeff d (by simpa [absoluteS] using hd)
+  simpa only [curve_zero] using this
+
+theorem sign_taylor (x : List ℝ) (hx : co x 0 ≠ 0) (d : ℕ) (hd : d < x.length) :
+    co (signS (SignType.sign (co x 0) : ℝ) x) d = tc (fun t => (SignType.sign (curve x t) : ℝ)) d := by
+  have := (sign_jet (jetOf_curve x) (by simpa only [curve_zero] using hx)).coeff d (by simpa [signS, constS] using hd)
+  simpa only [curve_zero] using this
+
+theorem minimum_maximum_taylor (x y : List ℝ) (hl : y.length = x.length) (h : co x 0 < co y 0) (d : ℕ) (hd : d < x.length) :
+    co (selectS 1 x y) d = tc (fun t => min (curve x t) (curve y t)) d
+    ∧ co (selectS 0 x y) d = tc (fun t => max (curve x t) (curve y t)) d := by
+  have := min_jet (jetOf_curve x) (jetOf_curve y) hl (by simpa only [curve_zero] using h)
+  exact ⟨this.1.coeff d (by simpa [selectS] using hd), this.2.coeff d (by simpa [selectS] using hd)⟩
+
+/-! ### closure under composition: kernels applied to the jet of any smooth germ -/
+
+/-- the jet lemma: the first `n+1` Taylor coefficients of `f ∘ X` depend only on those of `X` -/
+theorem jet_lemma {X G : ℝ → ℝ} (hX : Smooth0 X) (hG : Smooth0 G) (n : ℕ) (h : ∀ k, k ≤ n → tc X k = tc G k)
+    (d : ℕ) (hd : d ≤ n) (f : ℝ → ℝ) (hf : ContDiffAt ℝ ∞ f (X 0)) :
+    tc (fun t => f (X t)) d = tc (fun t => f (G t)) d :=
+  tc_comp_congr hX hG n h d hd f hf
+
+/-- example of a composed program: `exp(sin(x) * x)`, every coefficient, every input -/
+theorem jet_exp_sin_mul (x : List ℝ) :
+    JetOf (expS (Real.exp (Real.sin (co x 0) * co x 0)) (mulS (sincosS (Real.sin (co x 0)) (Real.cos (co x 0)) x).1 x))
+      (fun t => Real.exp (Real.sin (curve x t) * curve x t)) := by
+  have h1 := (jetOf_curve x).sin
+  have h2 := h1.mul (jetOf_curve x) (by simp [sincosS, build_length])
+  have h3 := h2.exp
+  simpa only [curve_zero, Pi.mul_apply] using h3
 
 /-! ## formal layer: defining identities over any field of characteristic 0 -/
 section
